@@ -43,6 +43,7 @@ static inline QMessageLogContext QMessageLogContext_ctor__cstr_int_cstr_cstr(cst
 { QMessageLogContext c; c.version = 2; c.line = line; c.file = file; c.function = function; c.category = category; return c; }
 
 #ifndef FIND_IF_REQUIRES
-#define FIND_IF_REQUIRES(first, last) __CPROVER_assert((first).l == (last).l && (first).i <= (last).i, "std::find_if precondition: [first,last) is a valid range (last reachable from first)")
+/* IT##_valid_range(first,last): last is reachable from first by ++ (forward: first.i <= last.i; reverse: first.i >= last.i) */
+#define FIND_IF_REQUIRES(IT, first, last) __CPROVER_assert(IT##_valid_range(first, last), "std::find_if precondition: [first,last) is a valid range (last reachable from first)")
 #endif
 #endif
